@@ -235,6 +235,7 @@ func sizeBucket(n int) string {
 }
 
 func run(t interface{ Fatalf(string, ...any) }, c *Case) {
+	defer fix.Track(prop, "count", c, c.Summary())()
 	nt, cl := classify(c)
 	evid.Case(nt, c.Summary(), cl...)
 	if err := oracle(c); err != nil {
